@@ -140,7 +140,18 @@ def run(lines, out, args):
                 classImplements(st["K"], ifs[3])
                 ifs[5] = implementedBy(st["K"])
                 ifs[6] = implementedBy(object)
-                st["c"] = R.Components()
+                # the history's object has a BASE (a Components holding a utility and an adapter for an interface of its own,
+                # which never meets the history's interfaces): whatever happens to the object, it keeps consulting its base
+                st["IB0"] = InterfaceClass("PB0_%d" % t, __module__="zi.gen")
+                setattr(gen, st["IB0"].__name__, st["IB0"])
+
+                def mkbase(cls):
+                    b = cls("base")
+                    b.registerUtility(V(9001, 9001), st["IB0"], "zz", "")
+                    b.registerAdapter(V(9002, 9002), (ifs[3],), st["IB0"], "zz", "")
+                    return b
+                st["mkbase"] = mkbase
+                st["c"] = R.Components("child", (mkbase(R.Components),))
                 st["vals"] = {}
             elif op == "sro":
                 want = " ".join(str(inv(x)) for x in ifs[int(f[1])].__sro__)
@@ -215,7 +226,7 @@ def run(lines, out, args):
             elif op == "persist":
                 if list(c.registeredUtilities()) or list(c.registeredAdapters()) or list(c.registeredSubscriptionAdapters()) or list(c.registeredHandlers()):
                     raise ValueError("persist: only directly after reset")
-                st["c"] = _picklable_classes()()
+                st["c"] = _picklable_classes()("child", (st["mkbase"](_picklable_classes()),))
             elif op == "reload":
                 c2 = pickle.loads(pickle.dumps(c, pickle.HIGHEST_PROTOCOL))
                 assert c2 is not c and c2._v_utility_registrations_cache is None
@@ -335,6 +346,24 @@ def run(lines, out, args):
                     called.append(str(h_.i))
                 c.handle(*obs)
                 got = " ".join(called)
+            elif op == "baseq":
+                # what the base holds is still found through the object (its registries are still wired to the base's)
+                class ObB:
+                    pass
+                from zope.interface import directlyProvides
+                ob_ = ObB()
+                directlyProvides(ob_, ifs[3])
+                u_ = c.queryUtility(st["IB0"], "zz")
+                a_ = c.queryAdapter(ob_, st["IB0"], "zz")
+                notes = []
+                if getattr(u_, "i", None) != 9001:
+                    notes.append("utility of the base not found: %r" % (u_,))
+                if a_ != ("res", 9002):
+                    notes.append("adapter of the base not found: %r" % (a_,))
+                if len(c.__bases__) != 1:
+                    notes.append("__bases__ = %r" % (c.__bases__,))
+                if notes:
+                    got = "BASE-LOST " + "; ".join(notes)
             elif op == "probe":
                 pr = c.rebuildUtilityRegistryFromLocalCache()
                 got = "%d %d" % (pr["needed_registered"], pr["needed_subscribed"])
